@@ -466,10 +466,15 @@ pub fn run(args: &Args) -> i32 {
                     } else if o.consumed_reported != info.frame_len as u64 {
                         ok = false;
                         rec.violation(Sig::new("consumed_count", mode_name, if info.header.checksum { "checksummed frame" } else { "frame without checksum" }), json!({"reported": o.consumed_reported, "frame_len": info.frame_len, "origin": c.origin, "last_operations": o.ops.iter().rev().take(5).rev().collect::<Vec<_>>()}), replay(&o.ops));
-                    } else if let Some(p) = o.pulled {
-                        if p != info.frame_len {
+                    } else if o.pulled.map(|p| p != info.frame_len).unwrap_or(false) {
+                        ok = false;
+                        rec.violation(Sig::new("pulled_from_source", mode_name, "bytes pulled != frame length"), json!({"pulled": o.pulled, "frame_len": info.frame_len, "origin": c.origin}), replay(&o.ops));
+                    } else if let Some((calc, stored)) = o.checksums {
+                        // "the final checksum values ... are identical no matter how decoding is driven": they are functions of the content
+                        let want = wlcore::xxh::xxh64(&c.expected, 0) as u32;
+                        if calc != Some(want) || (info.header.checksum && stored != Some(want)) || (!info.header.checksum && stored.is_some()) {
                             ok = false;
-                            rec.violation(Sig::new("pulled_from_source", mode_name, "bytes pulled != frame length"), json!({"pulled": p, "frame_len": info.frame_len, "origin": c.origin}), replay(&o.ops));
+                            rec.violation(Sig::new("final_checksum_values", mode_name, "depend on how the decoder was driven"), json!({"calculated": calc, "stored": stored, "xxh64_low32_of_content": want, "origin": c.origin, "last_operations": o.ops.iter().rev().take(5).rev().collect::<Vec<_>>()}), replay(&o.ops));
                         }
                     }
                 } else if let Some((calc, stored)) = o.checksums {
